@@ -113,7 +113,7 @@ func (c *container) OnAdd(kv internal.KV) {
 }
 
 func (c *container) OnDelete(kv internal.KV) {
-	c.removeKey(kv.Key)
+	c.removeKv(kv.Key, kv.Val)
 	c.notifyChange()
 }
 
@@ -123,6 +123,10 @@ func (c *container) addKv(key, value string) ([]string, bool) {
 	defer c.lock.Unlock()
 
 	c.dirty.Set(true)
+	// the key might be updated with a new value, drop the stale association first
+	if prev, ok := c.mapping[key]; ok && prev != value {
+		c.doRemoveKey(key)
+	}
 	keys := c.values[value]
 	previous := append([]string(nil), keys...)
 	early := len(keys) > 0
@@ -200,8 +204,18 @@ func (c *container) notifyChange() {
 
 // removeKey removes the kv, returns true if there are still other keys associate with the value
 func (c *container) removeKey(key string) {
+	c.removeKv(key, "")
+}
+
+// removeKv removes the key, unless the given value is known and the key is
+// associated with another value already, which means the deletion is stale.
+func (c *container) removeKv(key, value string) {
 	c.lock.Lock()
 	defer c.lock.Unlock()
+
+	if current, ok := c.mapping[key]; ok && len(value) > 0 && current != value {
+		return
+	}
 
 	c.dirty.Set(true)
 	c.doRemoveKey(key)
